@@ -123,6 +123,10 @@ func Harness_C16_fields() {
 	schema.Types["Int"] = &ast.Definition{Kind: ast.Scalar, Name: "Int"}
 	t := WrapTypeFromDef(schema, def)
 	incl := zzsym.Bool("includeDeprecated")
+	if zzsym.Choice("askedBefore", 2) == 1 {
+		// another alias on the same __Type object asked first, with the other value of includeDeprecated
+		t.Fields(!incl)
+	}
 	got := t.Fields(incl)
 	// expected field list
 	var want []string
@@ -203,7 +207,13 @@ func Harness_C16_inputsEnums() {
 		}
 	}
 	incl := zzsym.Bool("includeDeprecated")
-	evs := WrapTypeFromDef(schema, en).EnumValues(incl)
+	et := WrapTypeFromDef(schema, en)
+	if zzsym.Choice("askedBefore", 2) == 1 {
+		// another alias on the same __Type object asked first, with the other value of includeDeprecated
+		et.EnumValues(!incl)
+		et.InputFields()
+	}
+	evs := et.EnumValues(incl)
 	var want []string
 	for _, vn := range []string{"A", "B"} {
 		if incl || !edep[vn].on {
